@@ -74,3 +74,6 @@ META["C15"] = _m("mock", "DESIGN.md section 4, C15", "grammar-based property tes
 
 META["C12"] = _m("core", "DESIGN.md section 4, C12", "generated concurrent API programs (enumerated operation pairs + random batches, generated pacing) executed under the Go race detector; reports parsed and normalised into signatures",
     "Dynamic race detection over generated programs: judges only executed, unordered access pairs; pacing and repetition raise the chance that a racy pair is not masked by incidental ordering; search, not proof.", "Trusts the Go race detector and the in-process stderr capture; a racy pair separated by incidental happens-before edges in every run stays invisible.")
+
+META["C20"] = _m("core", "DESIGN.md section 4, C20", "property-based testing over generated real-time timelines (stimuli, inactive and panics placed around expected timer expiries) with timestamp invariants and a stated slack",
+    "Randomised timing exploration in real time: 200 timelines per case; detects early firing by >= 0.4 s, missing re-arming, events after inactive and unrouted panics; sub-millisecond races between HandleInactive and the timer callback are sampled, not enumerated.", "Trusts the wall clock within the 400 ms slack; hits are re-run once before being reported.")
